@@ -266,6 +266,23 @@ def run_footprint(interp, c):
         lemma(c, f"the next queue of an origin reads only its own variables and the first segment of its link ({rd.op[3:]})", owner_ok(rd, allowed))
 
 
+def run_sum_signs(interp, c):
+    """the two facts instantiated by pyvc.vc.sum_sign_lemmas: by induction on the length"""
+    f = T.uf("in.f", [INT], REAL)
+    body = lambda i: f(i)
+    m = T.var("m", INT)
+    c.assume(T.le(1, m))
+    allpos = lambda mm: T.TRUE
+    # P(m): (forall i < m. f(i) > 0) -> psum(m) > 0, with the quantifier skolemised per instance:
+    # step: psum(m) > 0 and f(m) > 0  ->  psum(m+1) > 0;  base: f(0) > 0 -> psum(1) > 0
+    lemma(c, "sum of positive terms is positive, base (one term)", T.implies(T.lt(0, f(0)), T.lt(0, psum(body, 1))))
+    lemma(c, "sum of positive terms is positive, step", T.implies(T.and_(T.lt(0, psum(body, m)), T.lt(0, f(m))), T.lt(0, psum(body, T.add(m, 1)))))
+    lemma(c, "sum of non-negative terms is non-negative, base (no term)", T.le(0, psum(body, 0)))
+    m0 = T.var("m0", INT)
+    c.assume(T.le(0, m0))
+    lemma(c, "sum of non-negative terms is non-negative, step", T.implies(T.and_(T.le(0, psum(body, m0)), T.le(0, f(m0))), T.le(0, psum(body, T.add(m0, 1)))))
+
+
 def run_lean(interp, c):
     """the Lean lemma file: quick tier = the committed proof-check stamp matches the file;
     thorough tier = lean re-checks the file (about 2-4 minutes, Mathlib import)"""
@@ -293,6 +310,7 @@ def run_lean(interp, c):
 
 def all_tasks():
     return [
+        Task("lemma:sum-signs", run_sum_signs, props=("C07",), func="pyvc.vc.sum_sign_lemmas"),
         Task("lean:lemmas/Metanet.lean", run_lean, props=("C02", "C14", "C17", "C18"), func="lemmas/Metanet.lean"),
         Task("lemma:origin-flow-bounds(ramps)", run_c17_ramps, props=("C17",), func="EngineSpec.origins.get_ramp_flow/get_simplifiedramp_flow"),
         Task("lemma:origin-flow-bounds(mainstream)", run_c17_mainstream, props=("C17",), func="EngineSpec.origins.get_mainstream_flow"),
